@@ -569,14 +569,23 @@ impl World<'_> {
             }
             EOp::Adapted(sk, text) => {
                 let Ok(text) = std::str::from_utf8(text) else { return Ok(()) };
-                let tty = self.m.is_tty(*sk);
                 if self.world_changes > 0 {
                     self.probes_after_change += 1;
                 }
-                let strip = self.m.decide(tty) == ColorChoice::Never;
-                let want = if strip { anstream::adapter::strip_str(text).to_string() } else { text.to_string() };
                 let fds = self.fds;
-                let got = with_stream(fds, *sk, &mut |s| s.adapted(text));
+                // C08 is about what a mode *does*; which mode the environment selects is C09's
+                // business.  So the expectation follows the choice the real code reports for this
+                // stream right now, and the stripped form comes from the real strip stream fed
+                // with the same Display value.
+                let (got, real_choice) = with_stream(fds, *sk, &mut |s| (s.adapted(text), s.choice()));
+                let strip = real_choice == ColorChoice::Never;
+                let want = if strip {
+                    let mut r = anstream::StripStream::new(Vec::new());
+                    let _ = write!(r, "{}", Text(text));
+                    String::from_utf8_lossy(&r.into_inner()).into_owned()
+                } else {
+                    text.to_string()
+                };
                 self.probe(if strip { "probe_adapted_string_strips" } else { "probe_adapted_string_passes" });
                 self.hash.str(&got);
                 self.note(format!("to_adapted_string(.., {}) -> {:?}", sk_name(*sk), lossy(got.as_bytes())));
@@ -584,7 +593,7 @@ impl World<'_> {
                     return Err(EViolation {
                         class: "adapted-mismatch".into(),
                         detail: format!(
-                            "to_adapted_string for {} gave {:?}, expected {} form {:?}; world: {}",
+                            "to_adapted_string for {} gave {:?}, but AutoStream::choice reports {real_choice:?} for that stream, so {} form {:?} is expected; world: {}",
                             sk_name(*sk),
                             lossy(got.as_bytes()),
                             if strip { "the stripped" } else { "the unchanged" },
@@ -599,27 +608,40 @@ impl World<'_> {
                 if self.world_changes > 0 {
                     self.probes_after_change += 1;
                 }
-                let strip = self.m.decide(false) == ColorChoice::Never;
-                let want = if strip { anstream::adapter::strip_bytes(text).into_vec() } else { text.clone() };
                 let chunks = crate::streams::split_by(text, lens);
                 let covered: usize = chunks.iter().map(|c| c.len()).sum();
-                let got: Vec<u8> = if *sk == Sk::BoxDyn {
+                let (got, mode): (Vec<u8>, ColorChoice) = if *sk == Sk::BoxDyn {
                     let w = crate::simw::SimWriter::new(vec![], false);
                     let b: Box<dyn Write> = Box::new(w.clone());
                     let mut s = AutoStream::auto(b);
+                    let mode = s.current_choice();
                     for c in &chunks {
                         let _ = s.write_all(c);
                     }
                     let _ = s.write_all(&text[covered..]);
                     let r = w.st().accepted.clone();
-                    r
+                    (r, mode)
                 } else {
                     let mut s = AutoStream::new(Vec::new(), ColorChoice::Auto);
+                    let mode = s.current_choice();
                     for c in &chunks {
                         let _ = s.write_all(c);
                     }
                     let _ = s.write_all(&text[covered..]);
-                    s.into_inner()
+                    (s.into_inner(), mode)
+                };
+                // expectation follows the mode the stream itself reports (see Adapted above); the
+                // stripped form is the real strip stream fed with the same chunks
+                let strip = mode == ColorChoice::Never;
+                let want = if strip {
+                    let mut r = anstream::StripStream::new(Vec::new());
+                    for c in &chunks {
+                        let _ = r.write_all(c);
+                    }
+                    let _ = r.write_all(&text[covered..]);
+                    r.into_inner()
+                } else {
+                    text.clone()
                 };
                 self.probe(if strip { "probe_auto_write_strips" } else { "probe_auto_write_passes" });
                 self.hash.bytes(&got);
